@@ -664,6 +664,17 @@ Record oinv (root : N) (pm : list (N * list N)) (es : list edge) (s : ost) : Pro
   oi_nodes : forall k, In k (o_order s) \/ In k (keys (o_queue s)) -> In k (map fst pm)
 }.
 
+Lemma insertN_In : forall x n l, In x (insertN n l) <-> x = n \/ In x l.
+Proof.
+  induction l as [|y t IH]; simpl.
+  - intuition.
+  - destruct (N.ltb n y).
+    + simpl. intuition.
+    + destruct (N.eqb n y) eqn:E.
+      * apply N.eqb_eq in E. subst. simpl. intuition.
+      * simpl. rewrite IH. intuition.
+Qed.
+
 Lemma ostep_inv : forall pick root pm es s,
   pick_ok pick -> oinv root pm es s -> ofin s = false -> oinv root pm es (ostep pick pm es s).
 Proof.
@@ -688,7 +699,7 @@ Proof.
     + intros Ho. exfalso. apply Iseen in Es. rewrite Ho in Es. exact Es.
     + intros k [H|H]; apply Inodes; auto. apply del_key_In in H. tauto.
   - apply memN_false in Es.
-    destruct (fold_left (enqueue pm (node :: o_seen s)) (outgoing es node)
+    destruct (fold_left (enqueue pm (insertN node (o_seen s))) (outgoing es node)
                 (map (fun e => (fst e, removeN node (snd e))) q1, o_err s)) as [q3 err'] eqn:Ef.
     destruct (enqueue_fold _ _ _ _ _ _ _ Ef) as [A [B C]].
     rewrite keys_map_snd in A, B.
@@ -696,7 +707,7 @@ Proof.
       by (intro; apply del_key_In).
     constructor; simpl.
     + constructor; auto. intro F. apply Es. apply Iseen. exact F.
-    + intros x. rewrite Iseen. tauto.
+    + intros x. rewrite insertN_In, Iseen. split; intros [H|H]; auto.
     + intros x [[H|H]|H].
       * subst x. apply Ireach. auto.
       * apply Ireach. auto.
@@ -704,12 +715,13 @@ Proof.
         -- apply Ireach. right. apply Hq1 in H'. tauto.
         -- apply rt_trans with node; [apply Ireach; auto|]. apply rt_step. apply outgoing_In. exact H'.
     + intros He'. destruct (C He') as [He0 Hout]. destruct (Iclosed He0) as [Hr Hc]. split.
-      * destruct Hr as [Hr|Hr]; auto. destruct (N.eq_dec root node) as [E|E]; [auto|].
+      * destruct Hr as [Hr|Hr]; [left; apply insertN_In; auto|].
+        destruct (N.eq_dec root node) as [E|E]; [left; apply insertN_In; auto|].
         right. apply A. apply Hq1. auto.
       * intros x y [Hx|Hx] Hxy.
         -- subst x. right. apply Hout. apply outgoing_In. exact Hxy.
-        -- destruct (Hc x y Hx Hxy) as [H|H]; auto.
-           destruct (N.eq_dec y node) as [E|E]; [auto|]. right. apply A. apply Hq1. auto.
+        -- destruct (Hc x y Hx Hxy) as [H|H]; [left; apply insertN_In; auto|].
+           destruct (N.eq_dec y node) as [E|E]; [left; apply insertN_In; auto|]. right. apply A. apply Hq1. auto.
     + split; [|exact Ipf]. destruct (Iqp node Hnode) as [[H1 H2]|H]; [left; split; assumption | right; exact H].
     + intros k Hk. right. destruct (B k Hk) as [H|[H _]].
       * apply Hq1 in H. destruct H as [H Hn]. destruct (Iqp k H) as [[H1 H2]|[p [Hp Hpk]]].
@@ -1095,4 +1107,427 @@ Proof.
   destruct (r_blocks r) eqn:E.
   - intros l1 b l2 Ho. rewrite L in Ho. destruct l1; discriminate.
   - destruct L as [_ [_ [_ [_ L]]]]. exact L.
+Qed.
+
+(* ================================================================================================ *)
+(* G. the surgery never invents instructions; SEND-free well-formed code connects without KeyError *)
+
+Definition blocks_in (ops : list instr) (bs : list block) : Prop :=
+  forall b, In b bs -> incl (code b) ops.
+
+Lemma split_blocks_in : forall v ops bs es, split_bytecode v ops = Ok (bs, es) -> blocks_in ops bs.
+Proof.
+  intros v ops bs es H. unfold split_bytecode in H.
+  destruct (split_fold_content v ops (targets ops) ops split_init split_init_inv) as [E _].
+  set (st := fold_left (split_step v ops (targets ops)) ops split_init) in *.
+  destruct (s_mode st); try discriminate. destruct (s_err st); try discriminate.
+  inversion H; subst bs es. intros b Hb o Ho.
+  assert (G : In o (content st)).
+  { unfold content. apply in_or_app. left. apply in_concat. exists (code b). split; auto.
+    apply in_map. exact Hb. }
+  rewrite E in G. exact G.
+Qed.
+
+Lemma upd_In : forall A i (y : A) l x, In x (upd i y l) -> x = y \/ In x l.
+Proof.
+  induction i; intros y [|h t] x H; simpl in H; auto.
+  - destruct H; auto. right. right. auto.
+  - destruct H as [H|H]; [right; left; auto|]. destruct (IHi _ _ _ H); auto. right. right. auto.
+Qed.
+
+Lemma delete_positions_In : forall A del (l : list A) pos x, In x (delete_positions del l pos) -> In x l.
+Proof.
+  induction l as [|a l IH]; intros pos x H; simpl in H; auto.
+  destruct (existsb (Nat.eqb pos) del).
+  - right. eapply IH; eauto.
+  - destruct H; [left; auto | right; eapply IH; eauto].
+Qed.
+
+Lemma merge_step_in : forall ops st p st',
+  merge_step (Ok st) p = Ok st' -> blocks_in ops (m_blocks st) -> blocks_in ops (m_blocks st').
+Proof.
+  intros ops st [bi mi] st' H Hin. unfold merge_step in H. cbn [bind] in H.
+  destruct (nth_error (m_blocks st) bi) as [b|] eqn:Eb; [|discriminate].
+  destruct (rev (code b)) as [|jb r] eqn:Er; [discriminate|].
+  set (bs1 := upd bi (set_code b (rev r)) (m_blocks st)) in *.
+  destruct (nth_error bs1 mi) as [m|] eqn:Em; [|discriminate].
+  set (bs2 := upd bi (set_code b (rev r ++ code m)) bs1) in *.
+  destruct (nth_error bs2 mi) as [m2|]; [|discriminate].
+  destruct (code m2); [discriminate|]. inversion H; subst st'. simpl.
+  assert (Hb : incl (code b) ops) by (apply Hin; eapply nth_error_In; eauto).
+  assert (Hr : incl (rev r) ops).
+  { intros o Ho. apply Hb. apply in_rev. rewrite Er. right. apply in_rev in Ho. exact Ho. }
+  assert (H1 : blocks_in ops bs1).
+  { intros x Hx. apply upd_In in Hx. destruct Hx as [Hx|Hx]; [subst x; exact Hr | auto]. }
+  intros x Hx. apply upd_In in Hx. destruct Hx as [Hx|Hx]; [|auto].
+  subst x. simpl. apply incl_app; auto. apply H1. eapply nth_error_In; eauto.
+Qed.
+
+Lemma merge_fold_in : forall ops ml st st',
+  fold_left merge_step ml (Ok st) = Ok st' -> blocks_in ops (m_blocks st) -> blocks_in ops (m_blocks st').
+Proof.
+  induction ml as [|p ml IH]; intros st st' H Hin; cbn [fold_left] in H.
+  - inversion H; subst. exact Hin.
+  - destruct (merge_step (Ok st) p) as [st1|c] eqn:E.
+    + eapply IH; eauto. eapply merge_step_in; eauto.
+    + exfalso. clear - H. induction ml as [|q ml IHm]; cbn [fold_left] in H; [discriminate|].
+      apply IHm. exact H.
+Qed.
+
+Lemma surgery_blocks_in : forall ops bs es su,
+  remove_jmp_to_get_anext_and_merge bs es = Ok su -> blocks_in ops bs -> blocks_in ops (su_blocks su).
+Proof.
+  intros ops bs es su H Hin. unfold remove_jmp_to_get_anext_and_merge in H.
+  inv_bind H. inv_bind H. inv_bind H. inversion H; subst su. simpl.
+  intros b Hb. apply delete_positions_In in Hb.
+  exact (merge_fold_in ops _ _ _ E0 Hin b Hb).
+Qed.
+
+Lemma instructions_from_ops_lemma : forall pick v ops r,
+  compute_order_gen pick v ops = Ok r ->
+  forall b o, In b (r_blocks r) -> In o (code b) -> In o ops.
+Proof.
+  intros pick v ops r H b o Hb Ho.
+  destruct (compute_order_gen_inv _ _ _ _ H) as [_ [_ [bs0 [es0 [su [Hs [Hsu Hr]]]]]]].
+  pose proof (split_blocks_in _ _ _ _ Hs) as H0.
+  assert (G : blocks_in ops (su_blocks su)).
+  { destruct v.
+    - eapply surgery_blocks_in; eauto. intros x Hx. apply H0.
+      unfold remove_jump_back_block in Hx. apply filter_In in Hx. tauto.
+    - inversion Hsu; subst su. exact H0. }
+  rewrite Hr in Hb. exact (G b Hb o Ho).
+Qed.
+
+(* ---- connect ---- *)
+Lemma assocN_Some_of_In : forall A k (v : A) l, In (k, v) l -> exists v', assocN k l = Some v'.
+Proof.
+  induction l as [|[k' v'] l IH]; intros H; simpl in *; [contradiction|].
+  destruct (N.eqb k k') eqn:E; eauto. destruct H as [H|H]; [|auto].
+  inversion H; subst. rewrite N.eqb_refl in E. discriminate.
+Qed.
+
+Lemma first_op_map_total : forall bs acc,
+  Forall (fun b => code b <> []) bs ->
+  exists fm, first_op_map bs acc = Ok fm /\
+    (forall kv, In kv acc -> In kv fm) /\
+    (forall b o c, In b bs -> code b = o :: c -> In (idx o, bid b) fm).
+Proof.
+  induction bs as [|b bs IH]; intros acc H; simpl.
+  - exists acc. repeat split; auto. intros b o c [].
+  - inversion H as [|? ? Hb Hbs]; subst. destruct (code b) as [|o c] eqn:E; [congruence|].
+    destruct (IH ((idx o, bid b) :: acc) Hbs) as [fm [E1 [E2 E3]]].
+    exists fm. split; [exact E1|]. split.
+    + intros kv Hkv. apply E2. right. exact Hkv.
+    + intros b' o' c' [Hb'|Hb'] Ec.
+      * subst b'. rewrite E in Ec. inversion Ec; subst. apply E2. left. reflexivity.
+      * eapply E3; eauto.
+Qed.
+
+Lemma eff_target_nil : forall o, eff_target [] o = target o.
+Proof. reflexivity. Qed.
+
+Lemma connect_target_ok : forall fm from t e,
+  (forall x, t = Some x -> exists b, assocN x fm = Some b) ->
+  exists e', connect_target fm from t (Ok e) = Ok e'.
+Proof.
+  intros fm from t e H. unfold connect_target. cbn [bind]. destruct t as [x|]; eauto.
+  destruct (H x eq_refl) as [b Hb]. rewrite Hb. eauto.
+Qed.
+
+Lemma connect_loop_total : forall fm bs e,
+  (forall b o x, In b bs -> In o (code b) -> (target o = Some x \/ block_target o = Some x) ->
+                 exists b', assocN x fm = Some b') ->
+  Forall (fun b => code b <> []) bs ->
+  exists e', connect_loop fm [] [] bs (Ok e) = Ok e'.
+Proof.
+  induction bs as [|b t IH]; intros e Hres Hne; simpl; eauto.
+  inversion Hne as [|? ? Hb Ht]; subst.
+  destruct (code b) as [|first c] eqn:Ec; [congruence|].
+  destruct (rev (first :: c)) as [|last r] eqn:Er.
+  { exfalso. apply (f_equal (@length _)) in Er. rewrite rev_length in Er. discriminate. }
+  assert (Hlast : In last (code b)).
+  { rewrite Ec. apply in_rev. rewrite Er. left. reflexivity. }
+  assert (Hfirst : In first (code b)) by (rewrite Ec; left; reflexivity).
+  assert (Hb0 : In b (b :: t)) by (left; reflexivity).
+  assert (H1 : exists e1, match t with
+                          | [] => Ok e
+                          | nb :: _ => if negb (no_next last) then Ok ((bid b, bid nb) :: e) else Ok e
+                          end = Ok e1).
+  { destruct t; eauto. destruct (negb (no_next last)); eauto. }
+  destruct H1 as [e1 H1]. rewrite H1.
+  destruct (connect_target_ok fm (bid b) (eff_target [] first) e1) as [e2 H2].
+  { intros x Hx. apply (Hres b first x Hb0 Hfirst). left. exact Hx. }
+  rewrite H2.
+  destruct (connect_target_ok fm (bid b) (eff_target [] last) e2) as [e3 H3].
+  { intros x Hx. apply (Hres b last x Hb0 Hlast). left. exact Hx. }
+  rewrite H3.
+  destruct (connect_target_ok fm (bid b) (block_target last) e3) as [e4 H4].
+  { intros x Hx. apply (Hres b last x Hb0 Hlast). right. exact Hx. }
+  rewrite H4.
+  apply IH; auto. intros b' o x Hb' Ho Hx. exact (Hres b' o x (or_intror Hb') Ho Hx).
+Qed.
+
+Lemma in_targets : forall ops t, In t (targets ops) -> exists o, In o ops /\ target o = Some t.
+Proof.
+  intros ops t H. unfold targets in H. apply in_flat_map in H. destruct H as [o [Ho Ht]].
+  exists o. split; auto. destruct (target o); simpl in Ht; [|contradiction]. destruct Ht as [Ht|[]]. congruence.
+Qed.
+
+Lemma wf_opsb_block_target : forall ops o t, wf_opsb ops = true -> In o ops -> block_target o = Some t ->
+  In t (targets ops).
+Proof.
+  intros ops o t H Hin Ht. unfold wf_opsb in H. apply andb_prop in H. destruct H as [_ H].
+  rewrite forallb_forall in H. specialize (H o Hin). rewrite Ht in H.
+  apply andb_prop in H. destruct H as [_ H]. apply memN_In. exact H.
+Qed.
+
+Lemma plain_connect_total_lemma : forall v ops,
+  wf_opsb ops = true -> anext_okb ops = true -> plainb ops = true ->
+  exists bs fm es,
+    split_bytecode v ops = Ok (bs, []) /\
+    (if v then remove_jmp_to_get_anext_and_merge (remove_jump_back_block ops bs) []
+     else Ok (mkSu bs [] [] [])) = Ok (mkSu bs [] [] []) /\
+    first_op_map bs [] = Ok fm /\
+    connect_loop fm [] [] bs (Ok []) = Ok es.
+Proof.
+  intros v ops Hwf Han Hpl.
+  assert (Hns : nosend v ops).
+  { intros o Ho. destruct (plainb_spec _ Hpl o Ho) as [E _]. rewrite E. apply andb_false_r. }
+  (* split returns *)
+  destruct (split_plain_fold v ops (targets ops) ops split_init eq_refl Hns (Forall_nil _) (Forall_nil _))
+    as [A [_ [_ [D E]]]].
+  assert (Hs : exists bs, split_bytecode v ops = Ok (bs, [])).
+  { unfold split_bytecode. rewrite A, E. simpl. rewrite D. simpl. eauto. }
+  destruct Hs as [bs Hs]. exists bs.
+  destruct (split_partition_lemma v ops bs [] (wf_last_next _ (wf_opsb_links _ Hwf)) Hs) as [Hcat Hok].
+  assert (Hne : Forall (fun b => code b <> []) bs).
+  { eapply Forall_impl; [|exact Hok]. intros b [o [c [Ec _]]]. congruence. }
+  assert (Hp : Forall plain_block bs).
+  { apply Forall_forall. intros b Hb o Ho.
+    assert (Hin : In o ops).
+    { rewrite <- Hcat. apply in_concat. exists (code b). split; auto. apply in_map. exact Hb. }
+    destruct (plainb_spec _ Hpl o Hin) as [_ [P Q]]. auto. }
+  destruct (first_op_map_total bs [] Hne) as [fm [Hfm [_ Hfm2]]].
+  assert (Hres : forall b o x, In b bs -> In o (code b) -> (target o = Some x \/ block_target o = Some x) ->
+                 exists b', assocN x fm = Some b').
+  { intros b o x Hb Ho Hx.
+    assert (Hin : In o ops).
+    { rewrite <- Hcat. apply in_concat. exists (code b). split; auto. apply in_map. exact Hb. }
+    assert (Ht : exists o', In o' ops /\ target o' = Some x).
+    { destruct Hx as [Hx|Hx]; [eauto|]. apply in_targets. eapply wf_opsb_block_target; eauto. }
+    destruct Ht as [o' [Ho' Ht']].
+    destruct (targets_start_blocks_lemma v ops bs [] Hwf Han Hns Hs o' x Ho' Ht')
+      as [b' [ot [c [Hb' [_ [Hc [_ Hi]]]]]]].
+    apply assocN_Some_of_In with (v := bid b'). rewrite <- Hi. eapply Hfm2; eauto. }
+  destruct (connect_loop_total fm bs [] Hres Hne) as [es Hes].
+  exists fm, es. split; [exact Hs|]. split; [|split; assumption].
+  destruct v; auto. apply surgery_plain; auto.
+Qed.
+
+(* ================================================================================================ *)
+(* H. the async-for merge with SIMPLE merge lists keeps "no instruction twice" (partial) *)
+
+Definition cnt (x : N) (l : list instr) : nat := count_occ N.eq_dec (map idx l) x.
+
+Lemma cnt_app : forall x a b, cnt x (a ++ b) = cnt x a + cnt x b.
+Proof. intros. unfold cnt. rewrite map_app, count_occ_app. reflexivity. Qed.
+
+(* occurrences of x in the blocks that survive deleting the positions in D *)
+Fixpoint live (x : N) (D : list nat) (bs : list block) (pos : nat) : nat :=
+  match bs with
+  | [] => 0
+  | b :: t => (if existsb (Nat.eqb pos) D then 0 else cnt x (code b)) + live x D t (S pos)
+  end.
+
+Lemma live_spec : forall x D bs pos,
+  live x D bs pos = cnt x (concat (map code (delete_positions D bs pos))).
+Proof.
+  induction bs as [|b t IH]; intros pos; simpl; auto.
+  destruct (existsb (Nat.eqb pos) D); simpl.
+  - apply IH.
+  - rewrite cnt_app, IH. reflexivity.
+Qed.
+
+Lemma existsb_eqb_In : forall p D, existsb (Nat.eqb p) D = true <-> In p D.
+Proof.
+  intros. rewrite existsb_exists. split.
+  - intros [y [H1 H2]]. apply Nat.eqb_eq in H2. subst. exact H1.
+  - intros H. exists p. split; auto. apply Nat.eqb_refl.
+Qed.
+
+(* replacing a live block *)
+Lemma live_upd : forall x D bs pos i b b',
+  nth_error bs i = Some b -> ~ In (pos + i) D ->
+  live x D (upd i b' bs) pos + cnt x (code b) = live x D bs pos + cnt x (code b').
+Proof.
+  induction bs as [|h t IH]; intros pos i b b' Hn Hd; [destruct i; discriminate|].
+  destruct i; simpl in *.
+  - inversion Hn; subst h. rewrite Nat.add_0_r in Hd.
+    destruct (existsb (Nat.eqb pos) D) eqn:E; [apply existsb_eqb_In in E; contradiction|]. lia.
+  - specialize (IH (S pos) i b b' Hn). replace (S pos + i) with (pos + S i) in IH by lia.
+    specialize (IH Hd). lia.
+Qed.
+
+(* deleting one more (live) position *)
+Lemma live_del : forall x D bs pos m b,
+  nth_error bs m = Some b -> ~ In (pos + m) D ->
+  live x ((pos + m) :: D) bs pos + cnt x (code b) = live x D bs pos.
+Proof.
+  induction bs as [|h t IH]; intros pos m b Hn Hd; [destruct m; discriminate|].
+  destruct m; simpl in *.
+  - inversion Hn; subst h. rewrite Nat.add_0_r in *. rewrite Nat.eqb_refl. simpl.
+    destruct (existsb (Nat.eqb pos) D) eqn:E; [apply existsb_eqb_In in E; contradiction|].
+    assert (G : forall t p, pos < p -> live x (pos :: D) t p = live x D t p).
+    { clear. induction t as [|h t IH]; intros p Hp; simpl; auto.
+      assert (E : (p =? pos) = false) by (apply Nat.eqb_neq; lia). rewrite E. simpl.
+      rewrite IH by lia. reflexivity. }
+    rewrite G by lia. lia.
+  - assert (E : (pos =? pos + S m) = false) by (apply Nat.eqb_neq; lia). rewrite E. simpl.
+    specialize (IH (S pos) m b Hn). replace (S pos + m) with (pos + S m) in IH by lia.
+    specialize (IH Hd). lia.
+Qed.
+
+Lemma nth_error_upd_same : forall A i (y : A) l, i < length l -> nth_error (upd i y l) i = Some y.
+Proof.
+  induction i; intros y [|h t] H; simpl in *; try lia; auto. apply IHi. lia.
+Qed.
+
+Lemma nth_error_upd_other : forall A i j (y : A) l, i <> j -> nth_error (upd i y l) j = nth_error l j.
+Proof.
+  induction i; intros j y [|h t] H; simpl; auto.
+  - destruct j; [congruence | reflexivity].
+  - destruct j; auto. simpl. apply IHi. congruence.
+Qed.
+
+Lemma upd_upd : forall A i (y z : A) l, upd i z (upd i y l) = upd i z l.
+Proof. induction i; intros y z [|h t]; simpl; auto. f_equal. apply IHi. Qed.
+
+Lemma upd_length : forall A i (y : A) l, length (upd i y l) = length l.
+Proof. induction i; intros y [|h t]; simpl; auto. Qed.
+
+(* one merge step with bi live, mi live, bi <> mi does not increase any count *)
+Lemma merge_step_live : forall x st bi mi st' D,
+  merge_step (Ok st) (bi, mi) = Ok st' ->
+  bi <> mi -> ~ In bi D -> ~ In mi D ->
+  live x (mi :: D) (m_blocks st') 0 <= live x D (m_blocks st) 0 /\
+  length (m_blocks st') = length (m_blocks st).
+Proof.
+  intros x st bi mi st' D H Hne Hbi Hmi. unfold merge_step in H. cbn [bind] in H.
+  destruct (nth_error (m_blocks st) bi) as [b|] eqn:Eb; [|discriminate].
+  destruct (rev (code b)) as [|jb r] eqn:Er; [discriminate|].
+  set (bs := m_blocks st) in *.
+  set (bs1 := upd bi (set_code b (rev r)) bs) in *.
+  destruct (nth_error bs1 mi) as [m|] eqn:Em; [|discriminate].
+  set (bs2 := upd bi (set_code b (rev r ++ code m)) bs1) in *.
+  destruct (nth_error bs2 mi) as [m2|] eqn:Em2; [|discriminate].
+  destruct (code m2) eqn:Ec2; [discriminate|]. inversion H; subst st'. simpl. clear H.
+  assert (Em0 : nth_error bs mi = Some m).
+  { unfold bs1 in Em. rewrite nth_error_upd_other in Em by exact Hne. exact Em. }
+  assert (E2 : bs2 = upd bi (set_code b (rev r ++ code m)) bs) by (unfold bs2, bs1; apply upd_upd).
+  assert (Em2' : nth_error bs2 mi = Some m).
+  { rewrite E2, nth_error_upd_other by exact Hne. exact Em0. }
+  split; [|rewrite E2; apply upd_length].
+  pose proof (live_del x D bs2 0 mi m Em2' Hmi) as L2. simpl in L2.
+  pose proof (live_upd x D bs 0 bi b (set_code b (rev r ++ code m)) Eb Hbi) as L1. simpl in L1.
+  rewrite <- E2 in L1.
+  assert (Ecode : code b = rev r ++ [jb]).
+  { rewrite <- (rev_involutive (code b)), Er. reflexivity. }
+  rewrite Ecode in L1. rewrite !cnt_app in L1. lia.
+Qed.
+
+Definition simple_rest (D : list nat) (ml : list (nat * nat)) : Prop :=
+  NoDup (map fst ml) /\ NoDup (map snd ml) /\
+  (forall a, In a (map fst ml) -> ~ In a (map snd ml) /\ ~ In a D) /\
+  (forall a, In a (map snd ml) -> ~ In a D).
+
+Lemma merge_fold_live : forall x ml st st' D,
+  fold_left merge_step ml (Ok st) = Ok st' ->
+  simple_rest D ml ->
+  live x (rev (map snd ml) ++ D) (m_blocks st') 0 <= live x D (m_blocks st) 0.
+Proof.
+  induction ml as [|[bi mi] ml IH]; intros st st' D H Hs; cbn [fold_left] in H.
+  - inversion H; subst. simpl. lia.
+  - destruct (merge_step (Ok st) (bi, mi)) as [st1|c] eqn:E.
+    2:{ exfalso. clear - H. induction ml as [|q ml IHm]; cbn [fold_left] in H; [discriminate|]. apply IHm. exact H. }
+    destruct Hs as [N1 [N2 [Hf Hsn]]]. simpl in N1, N2. inversion N1; subst. inversion N2; subst.
+    assert (Hbi : ~ In bi D) by (apply (Hf bi); left; reflexivity).
+    assert (Hmi : ~ In mi D) by (apply Hsn; left; reflexivity).
+    assert (Hne : bi <> mi).
+    { intro F. destruct (Hf bi (or_introl eq_refl)) as [G _]. apply G. left. auto. }
+    destruct (merge_step_live x st bi mi st1 D E Hne Hbi Hmi) as [L _].
+    assert (Hs' : simple_rest (mi :: D) ml).
+    { split; [assumption|]. split; [assumption|]. split.
+      - intros a Ha. destruct (Hf a (or_intror Ha)) as [G1 G2]. split.
+        + intro F. apply G1. right. exact F.
+        + intros [F|F]; [|contradiction]. apply G1. left. auto.
+      - intros a Ha [F|F]; [subst; contradiction | apply (Hsn a); [right; exact Ha | exact F]]. }
+    specialize (IH st1 st' (mi :: D) H Hs'). simpl.
+    replace ((rev (map snd ml) ++ [mi]) ++ D) with (rev (map snd ml) ++ mi :: D)
+      by (rewrite <- app_assoc; reflexivity).
+    lia.
+Qed.
+
+Lemma delete_positions_ext : forall A D1 D2 (l : list A) pos,
+  (forall p, In p D1 <-> In p D2) -> delete_positions D1 l pos = delete_positions D2 l pos.
+Proof.
+  induction l as [|a l IH]; intros pos H; simpl; auto.
+  assert (E : existsb (Nat.eqb pos) D1 = existsb (Nat.eqb pos) D2).
+  { destruct (existsb (Nat.eqb pos) D1) eqn:E1; destruct (existsb (Nat.eqb pos) D2) eqn:E2; auto.
+    - apply existsb_eqb_In in E1. apply H in E1. apply existsb_eqb_In in E1. congruence.
+    - apply existsb_eqb_In in E2. apply H in E2. apply existsb_eqb_In in E2. congruence. }
+  rewrite E. destruct (existsb (Nat.eqb pos) D2); rewrite (IH _ H); reflexivity.
+Qed.
+
+Lemma nodup_natb_NoDup : forall l, nodup_natb l = true -> NoDup l.
+Proof.
+  induction l as [|x l IH]; simpl; intros H; constructor.
+  - apply andb_prop in H. destruct H as [H _]. apply negb_true_iff in H. intro F.
+    apply existsb_eqb_In in F. congruence.
+  - apply IH. apply andb_prop in H. tauto.
+Qed.
+
+Lemma simple_mergesb_spec : forall ml, simple_mergesb ml = true -> simple_rest [] ml.
+Proof.
+  intros ml H. unfold simple_mergesb in H. apply andb_prop in H. destruct H as [H H3].
+  apply andb_prop in H. destruct H as [H1 H2].
+  split; [apply nodup_natb_NoDup; auto|]. split; [apply nodup_natb_NoDup; auto|]. split.
+  - intros a Ha. rewrite forallb_forall in H3. specialize (H3 a Ha). apply negb_true_iff in H3.
+    split; [|intros []]. intro F. apply existsb_eqb_In in F. congruence.
+  - intros a _ [].
+Qed.
+
+Lemma filter_cnt_le : forall x (f : block -> bool) bs,
+  cnt x (concat (map code (filter f bs))) <= cnt x (concat (map code bs)).
+Proof.
+  induction bs as [|b bs IH]; simpl; auto. destruct (f b); simpl; rewrite !cnt_app; lia.
+Qed.
+
+Lemma simple_merge_nodup_lemma : forall pick v ops r,
+  wf_opsb ops = true -> merge_simpleb ops = true ->
+  compute_order_gen pick v ops = Ok r -> NoDup (block_instrs (r_blocks r)).
+Proof.
+  intros pick v ops r Hwf Hsim H.
+  destruct (compute_order_gen_inv _ _ _ _ H) as [_ [_ [bs0 [es0 [su [Hs [Hsu Hr]]]]]]].
+  destruct (split_partition_full _ _ _ _ Hwf Hs) as [Hcat [_ Hnd]].
+  rewrite Hr. destruct v.
+  2:{ inversion Hsu; subst su. exact Hnd. }
+  unfold merge_simpleb in Hsim. rewrite Hs in Hsim.
+  set (bs1 := remove_jump_back_block ops bs0) in *.
+  unfold remove_jmp_to_get_anext_and_merge in Hsu.
+  destruct (merge_list_of bs1 bs1 0) as [ml|] eqn:Eml; [|discriminate]. cbn [bind] in Hsu.
+  inv_bind Hsu. inv_bind Hsu. inversion Hsu; subst su. simpl. clear Hsu.
+  apply simple_mergesb_spec in Hsim.
+  unfold block_instrs. apply (NoDup_count_occ N.eq_dec). intros x.
+  change (cnt x (concat (map code (delete_positions (map snd ml) (m_blocks a) 0))) <= 1).
+  rewrite (delete_positions_ext _ (map snd ml) (rev (map snd ml) ++ []))
+    by (intro p; rewrite app_nil_r, <- in_rev; tauto).
+  rewrite <- live_spec.
+  pose proof (merge_fold_live x ml _ a [] E Hsim) as L. simpl in L.
+  assert (L0 : live x [] bs1 0 <= 1).
+  { rewrite live_spec. simpl.
+    assert (G : delete_positions [] bs1 0 = bs1) by apply delete_positions_nil. rewrite G.
+    unfold bs1, remove_jump_back_block.
+    eapply Nat.le_trans; [apply filter_cnt_le|].
+    unfold block_instrs in Hnd. apply (NoDup_count_occ N.eq_dec). exact Hnd. }
+  lia.
 Qed.
